@@ -711,6 +711,15 @@ pub fn run(tier: Tier, seed: u64, replay: Option<&std::path::Path>) -> i32 {
         outcome_of(text, r, &st, true, vec!["name-collision".into()])
     });
 
+    // components whose worlds `use` types at world level (resources incl. borrows, records, renames)
+    let (wpk, wdocs) = world_use_docs();
+    run.set_extra("world_level_use_documents", json!(wdocs.len()));
+    run.enumerate(&wdocs, |text| {
+        let mut st = Stages::default();
+        let r = front_end(text, &wpk, &mut st);
+        outcome_of(text, r, &st, true, vec!["world-level-use".into()])
+    });
+
     // implicit imports that meet on one name or one semver track with mergeable and unmergeable types
     let (cpk, cdocs) = conflict_docs();
     run.set_extra("merge_conflict_documents", json!(cdocs.len()));
@@ -874,6 +883,47 @@ pub fn conflict_docs() -> (Vec<(String, Option<semver::Version>, Vec<u8>)>, Vec<
                         docs.push(format!("package test:comp;\nimport q as \"{v}\": {t};\nimport r as \"{v2}\": {t2};\n"));
                     }
                 }
+            }
+        }
+    }
+    (pkgs, docs)
+}
+
+
+/// Components built by the reference toolchain from worlds that `use` types at world level, and documents
+/// that instantiate one or two of them (both dependency modes are encoded by `front_end`).
+pub fn world_use_docs() -> (Vec<(String, Option<semver::Version>, Vec<u8>)>, Vec<String>) {
+    let api = "package lib:api;\ninterface i0 { resource r { constructor(); m: func(); } record rec { a: u8 } type t = list<rec>; f: func(x: borrow<r>) -> own<r>; }\ninterface i1 { use i0.{r, rec}; g: func(x: rec) -> r; }\n".to_string();
+    let worlds: &[&str] = &[
+        "use lib:api/i0.{r}; import f: func(x: borrow<r>);",
+        "use lib:api/i0.{r}; import f: func(x: r) -> r;",
+        "use lib:api/i0.{r}; export g: func(x: borrow<r>);",
+        "use lib:api/i0.{r as q}; import f: func(x: borrow<q>); export g: func() -> q;",
+        "use lib:api/i0.{rec}; import f: func(x: rec) -> list<rec>;",
+        "use lib:api/i0.{rec as other, t}; export g: func(x: other) -> t;",
+        "use lib:api/i0.{r}; use lib:api/i1.{rec}; import f: func(x: borrow<r>, y: rec); export lib:api/i1;",
+        "use lib:api/i0.{r}; import lib:api/i0; export lib:api/i1; export g: func(x: r);",
+        "use lib:api/i0.{r}; import i: interface { use lib:api/i0.{r}; h: func(x: borrow<r>); }",
+        "use lib:api/i1.{r}; import f: func(x: borrow<r>);",
+    ];
+    let mut pkgs = vec![];
+    for (k, w) in worlds.iter().enumerate() {
+        let text = format!("package test:wu{k};\nworld w {{ {w} }}\n");
+        match crate::gen::wit::build_component(&[api.clone()], &text) {
+            Ok(b) => pkgs.push((format!("test:wu{k}"), None, b)),
+            Err(e) => {
+                eprintln!("BROKEN-CHECK: world-level use component {k} is rejected by the reference toolchain: {e}");
+                std::process::exit(2)
+            }
+        }
+    }
+    let mut docs = vec![];
+    for a in 0..pkgs.len() {
+        docs.push(format!("package test:comp;\nlet x = new test:wu{a} {{ ... }};\n"));
+        docs.push(format!("package test:comp;\nlet x = new test:wu{a} {{ ... }};\nexport x...;\n"));
+        for b in 0..pkgs.len() {
+            if a != b {
+                docs.push(format!("package test:comp;\nlet x = new test:wu{a} {{ ... }};\nlet y = new test:wu{b} {{ ... }};\n"));
             }
         }
     }
